@@ -48,12 +48,26 @@ theorem consume_bwd (s : Sc) (n : Leaf) (l : Bool) :
     simp only at h
     cases ok <;> simp [h]
 
+theorem gconsume_fwd (s : Sc) (n : Leaf) (l : Bool) :
+    (guardedConsume s n true l).2.nodes = if (guardedConsume s n true l).1 then s.nodes ++ [n] else s.nodes := by
+  unfold guardedConsume
+  split
+  · exact consume_fwd s n l
+  · simp
+
+theorem gconsume_bwd (s : Sc) (n : Leaf) (l : Bool) :
+    (guardedConsume s n false l).2.nodes = if (guardedConsume s n false l).1 then n :: s.nodes else s.nodes := by
+  unfold guardedConsume
+  split
+  · exact consume_bwd s n l
+  · simp
+
 theorem flatRev_orphan (out : List Item) (v : Leaf) :
     flatRev (checkForOrphanJump out v).1 = flatRev out ++ [v] := by
   unfold checkForOrphanJump
   split
-  · have h := consume_fwd orphanJump v false
-    cases hc : consumeEdgeNode orphanJump v true false with
+  · have h := consume_fwd { orphanJump with runIds := [v.id] } v false
+    cases hc : consumeEdgeNode { orphanJump with runIds := [v.id] } v true false with
     | mk ok s =>
       rw [hc] at h
       cases ok <;> simp_all [flatRev, Item.leaves, orphanJump]
@@ -69,8 +83,8 @@ theorem flatRev_reverseExp (budget : Nat) : ∀ (s : Sc) (out : List Item),
     unfold tryReverseExpansion
     split
     · rename_i l rest
-      have h := consume_bwd s l false
-      cases hc : consumeEdgeNode s l false false with
+      have h := gconsume_bwd s l false
+      cases hc : guardedConsume s l false false with
       | mk ok s' =>
         rw [hc] at h
         cases ok
@@ -85,8 +99,8 @@ theorem flatRev_stepPlain (st : PassSt) (v : Leaf) : flatRev (stepPlain st v).ou
   unfold stepPlain
   split
   · rename_i sid s rest hcur hout
-    have h := consume_fwd s v (st.i == st.lastEnd + 1 && st.lastEnd != 0)
-    cases hc : consumeEdgeNode s v true (st.i == st.lastEnd + 1 && st.lastEnd != 0) with
+    have h := gconsume_fwd s v (st.i == st.lastEnd + 1 && st.lastEnd != 0)
+    cases hc : guardedConsume s v true (st.i == st.lastEnd + 1 && st.lastEnd != 0) with
     | mk ok s1 =>
       rw [hc] at h
       simp only [hc]
@@ -170,25 +184,29 @@ theorem bind_inv (vals : List Leaf) : ∀ (scs : List (Int × Sc)) (slots : List
     have ih := bind_inv vals rest (bindOne vals slots p) (bindOne_empty vals slots p h)
     exact ⟨by rw [ih.1, bindOne_fst], ih.2⟩
 
-/-- the leaves of the trailing jump shortcut that `update_with_new_values` drops ("a jump the user left off") -/
-def poppedLeaves (items : List Item) : List Leaf :=
-  match items.getLast? with
-  | some (Item.sc _ s) => if s.kind == Kind.jmp && s.origLen == 0 then s.nodes else []
+/-- the leaves of the trailing jump shortcuts that `update_with_new_values` drops ("jumps the user left off"),
+    on the items most recent first -/
+def poppedRev : List Item → List Leaf
+  | Item.sc _ s :: rest => if s.kind == Kind.jmp && s.origLen == 0 then poppedRev rest ++ s.nodes else []
   | _ => []
+
+def poppedLeaves (items : List Item) : List Leaf := poppedRev items.reverse
+
+theorem flatRev_pop : ∀ (out : List Item), flatRev (popRev out) ++ poppedRev out = flatRev out
+  | [] => by simp [popRev, poppedRev, flatRev]
+  | Item.leaf l :: rest => by simp [popRev, poppedRev]
+  | Item.sc sid s :: rest => by
+    simp only [popRev, poppedRev]
+    split
+    · rw [← List.append_assoc, flatRev_pop rest]; simp [flatRev, Item.leaves]
+    · simp
 
 theorem flatten_pop (items : List Item) : flatten (popTrailingJump items) ++ poppedLeaves items = flatten items := by
   unfold popTrailingJump poppedLeaves
-  rcases List.eq_nil_or_concat items with h | ⟨init, last, h⟩
-  · subst h; simp [flatten]
-  · subst h
-    simp only [List.concat_eq_append, List.getLast?_append, List.getLast?_singleton, Option.some_or]
-    cases last with
-    | leaf l => simp
-    | sc sid s =>
-      simp only
-      split
-      · simp [flatten, Item.leaves]
-      · simp
+  rw [flatten_reverse, flatRev_pop]
+  have := flatten_reverse items.reverse
+  rw [List.reverse_reverse] at this
+  exact this.symm
 
 /-- **C08_consume_inv (order and completeness).** For every list of original shortcuts and every list of new
     value nodes, the nodes of the list after `update_with_new_values`, flattened (`list(ListNode)`), followed by
@@ -214,7 +232,7 @@ theorem C08_consume_inv (scs : List (Int × Sc)) (vals : List Leaf) :
     subst hv
     have : bindShortcuts scs [] = [] := by simpa using hfst
     rw [this]
-    simp [flatten, poppedLeaves, expandShortcuts]
+    simp [flatten, poppedLeaves, poppedRev, expandShortcuts]
   · have hb2 : ∀ q ∈ bindShortcuts scs vals, ∀ r, q.2 = some r → r.2.nodes = [] := hb.2
     rw [flatten_pop, flatten_reverse, flatRev_expandShortcuts _ _ hb2, hfst]
     simp [flatRev]
@@ -222,7 +240,7 @@ theorem C08_consume_inv (scs : List (Int × Sc)) (vals : List Leaf) :
 
 /-- non-vacuity: a bound repeat that consumes forward and backward, an orphan jump, and the trailing pop -/
 example :
-    let mk (i : Nat) (v : Option Rat) : Leaf := ⟨i, v, 0, "", "", false, false⟩
+    let mk (i : Nat) (v : Option Rat) : Leaf := ⟨i, v, 0, "", "", false, false, true⟩
     let rep : Sc := { orphanJump with kind := .rep, nodes := [mk 2 (some 1)], origLen := 2 }
     let vals := [mk 0 (some 5), mk 1 (some 1), mk 2 (some 1), mk 3 (some 1), mk 4 none]
     ((updateWithNewValues [(0, rep)] vals).map (fun it => match it with
@@ -531,6 +549,12 @@ theorem consume_ok (s : Sc) (n : Leaf) (f l : Bool) (h : ScOk s) : ScOk (consume
     · exact h.2 hk m h1
     · rw [h1]; exact (consume_val s n f l hok).2 hk
 
+theorem gconsume_ok (s : Sc) (n : Leaf) (f l : Bool) (h : ScOk s) : ScOk (guardedConsume s n f l).2 := by
+  unfold guardedConsume
+  split
+  · exact consume_ok s n f l h
+  · exact h
+
 def AllOk (out : List Item) : Prop := ∀ it ∈ out, ItemOk it
 
 theorem allOk_cons {it : Item} {out : List Item} (h1 : ItemOk it) (h2 : AllOk out) : AllOk (it :: out) := by
@@ -540,22 +564,22 @@ theorem allOk_cons {it : Item} {out : List Item} (h1 : ItemOk it) (h2 : AllOk ou
   · exact h1
   · exact h2 x hx
 
-theorem orphan_ok : ScOk orphanJump := by
+theorem orphan_ok (ids : List Nat) : ScOk { orphanJump with runIds := ids } := by
   unfold ScOk orphanJump; simp
 
 theorem allOk_orphan (out : List Item) (v : Leaf) (h : AllOk out) : AllOk (checkForOrphanJump out v).1 := by
   unfold checkForOrphanJump
   split
   · rename_i hnone
-    have hok : (consumeEdgeNode orphanJump v true false).1 = true := by
+    have hok : (consumeEdgeNode { orphanJump with runIds := [v.id] } v true false).1 = true := by
       simp [consumeEdgeNode, canConsumeNode, orphanJump, hnone]
-    cases hc : consumeEdgeNode orphanJump v true false with
+    cases hc : consumeEdgeNode { orphanJump with runIds := [v.id] } v true false with
     | mk ok s =>
       rw [hc] at hok
       simp only at hok
       subst hok
       simp only [if_true]
-      have := consume_ok orphanJump v true false orphan_ok
+      have := consume_ok { orphanJump with runIds := [v.id] } v true false (orphan_ok [v.id])
       rw [hc] at this
       exact allOk_cons this h
   · rename_i hsome
@@ -573,8 +597,8 @@ theorem allOk_reverseExp (budget : Nat) : ∀ (s : Sc) (out : List Item), ScOk s
     unfold tryReverseExpansion
     split
     · rename_i l rest
-      have hso := consume_ok s l false false hs
-      cases hc : consumeEdgeNode s l false false with
+      have hso := gconsume_ok s l false false hs
+      cases hc : guardedConsume s l false false with
       | mk ok s' =>
         rw [hc] at hso
         cases ok
@@ -589,8 +613,8 @@ theorem allOk_stepPlain (st : PassSt) (v : Leaf) (h : AllOk st.out) : AllOk (ste
   · rename_i sid s rest hcur hout
     have hs : ScOk s := h (Item.sc sid s) (by rw [hout]; exact List.mem_cons_self)
     have hrest : AllOk rest := fun x hx => h x (by rw [hout]; exact List.mem_cons_of_mem _ hx)
-    have hso := consume_ok s v true (st.i == st.lastEnd + 1 && st.lastEnd != 0) hs
-    cases hc : consumeEdgeNode s v true (st.i == st.lastEnd + 1 && st.lastEnd != 0) with
+    have hso := gconsume_ok s v true (st.i == st.lastEnd + 1 && st.lastEnd != 0) hs
+    cases hc : guardedConsume s v true (st.i == st.lastEnd + 1 && st.lastEnd != 0) with
     | mk ok s1 =>
       rw [hc] at hso
       simp only [hc]
@@ -811,42 +835,53 @@ theorem sound_multiply (s : Sc) (carried : Option Rat) (S : St) (f : Fmt) (hp : 
       split at h
       · simp at h
       · split at h
+        · rename_i hclose
+          simp only [Option.some.injEq] at h
+          subst h
+          split at heq
+          · rename_i c pl hnodes
+            simp only [Option.some.injEq, Prod.mk.injEq] at heq
+            obtain ⟨hb, hf, hpv⟩ := heq
+            subst hf
+            subst hb
+            have hprev := hc c rfl
+            subst hprev
+            refine ⟨⟨out ++ [Val.num (c * w)], some (c * w), none⟩, ?_, rfl, ⟨[Val.num (c * w)], rfl, ?_⟩, by simp⟩
+            · simp only [List.nil_append, runW, Word.toEntry, step]
+            · rw [hnodes]
+              simp only [List.map_cons, List.map_nil, hpv, MatchL, Val.matches, and_true]
+              exact isclose_sound _ _ hclose
+          · rename_i a pn hnodes
+            simp only [Option.some.injEq, Prod.mk.injEq] at heq
+            obtain ⟨hb, hf, hpv⟩ := heq
+            subst hf
+            refine ⟨⟨out ++ [Val.num b] ++ [Val.num (b * w)], some (b * w), none⟩, ?_, rfl,
+              ⟨[Val.num b, Val.num (b * w)], by simp, ?_⟩, by simp⟩
+            · simp only [List.cons_append, List.nil_append, runW, Word.toEntry, hb, Option.map_some, step]
+            · rw [hnodes]
+              simp only [List.map_cons, List.map_nil, hpv, hb, MatchL, Val.matches, and_true]
+              exact ⟨isClose_refl b, isclose_sound _ _ hclose⟩
+          · simp at heq
         · simp at h
-        · split at h
-          · rename_i hclose
-            simp only [Option.some.injEq] at h
-            subst h
-            split at heq
-            · rename_i c pl hnodes
-              simp only [Option.some.injEq, Prod.mk.injEq] at heq
-              obtain ⟨hb, hf, hpv⟩ := heq
-              subst hf
-              subst hb
-              have hprev := hc c rfl
-              subst hprev
-              refine ⟨⟨out ++ [Val.num (c * w)], some (c * w), none⟩, ?_, rfl, ⟨[Val.num (c * w)], rfl, ?_⟩, by simp⟩
-              · simp only [List.nil_append, runW, Word.toEntry, step]
-              · rw [hnodes]
-                simp only [List.map_cons, List.map_nil, hpv, MatchL, Val.matches, and_true]
-                exact isclose_sound _ _ hclose
-            · rename_i a pn hnodes
-              simp only [Option.some.injEq, Prod.mk.injEq] at heq
-              obtain ⟨hb, hf, hpv⟩ := heq
-              subst hf
-              refine ⟨⟨out ++ [Val.num b] ++ [Val.num (b * w)], some (b * w), none⟩, ?_, rfl,
-                ⟨[Val.num b, Val.num (b * w)], by simp, ?_⟩, by simp⟩
-              · simp only [List.cons_append, List.nil_append, runW, Word.toEntry, hb, Option.map_some, step]
-              · rw [hnodes]
-                simp only [List.map_cons, List.map_nil, hpv, hb, MatchL, Val.matches, and_true]
-                exact ⟨isClose_refl b, isclose_sound _ _ hclose⟩
-            · simp at heq
-          · simp at h
     · simp at h
 
 theorem lin_alg (b e D k : Rat) : b + (e - b) / D * k = b + (e - b) * k / D := by grind
 
+theorem iscloseScale_matches (b e : Rat) (n k : Nat) (x y : Rat)
+    (hx : x = MontePyVerif.Spec.Shortcut.linValue b e n k) (h : iscloseScale x y (scaleOf b e) = true) :
+    (Val.linv b e n k).matches (some y) = true := by
+  subst hx
+  unfold iscloseScale at h
+  simp only [Val.matches, Bool.or_eq_true, decide_eq_true_eq] at h ⊢
+  rcases h with h | h
+  · left; exact isclose_sound _ _ h
+  · right
+    rw [rabs_sub] at h
+    exact h
+
 theorem MatchL_lin (b e : Rat) (n : Nat) (lastL : Leaf) (hl : lastL.val = some e) :
-    ∀ (init : List Leaf) (i : Nat), linOk b ((e - b) / ((n + 1 : Nat) : Rat)) i (init ++ [lastL]) = true →
+    ∀ (init : List Leaf) (i : Nat),
+      linOk b ((e - b) / ((n + 1 : Nat) : Rat)) (scaleOf b e) i (init ++ [lastL]) = true →
       MatchL ((List.range' i init.length).map (fun j => Val.linv b e n (j + 1)) ++ [Val.num e])
         ((init ++ [lastL]).map (·.val))
   | [], i, _ => by simp [MatchL, hl, Val.matches, isClose_refl]
@@ -858,10 +893,8 @@ theorem MatchL_lin (b e : Rat) (n : Nat) (lastL : Leaf) (hl : lastL.val = some e
     split at h1
     · rename_i y hy
       rw [hy]
-      simp only [Val.matches, MontePyVerif.Spec.Shortcut.linValue, Bool.or_eq_true]
-      left
       rw [lin_alg] at h1
-      exact isclose_sound _ _ h1
+      exact iscloseScale_matches b e n (i + 1) _ y (by simp [MontePyVerif.Spec.Shortcut.linValue]) h1
     · simp at h1
 
 theorem logv_matches (b e y : Rat) (n j : Nat) :
@@ -1001,6 +1034,13 @@ theorem sound_format (s : Sc) (carried : Option Rat) (S : St) (hok : ScOk s) (hp
     Sound (MontePyVerif.Model.Shortcut.format s carried).words (MontePyVerif.Model.Shortcut.format s carried).tail s.nodes S := by
   unfold MontePyVerif.Model.Shortcut.format
   simp only
+  generalize hcar : (if s.ownStart = true then none else carried) = c'
+  have hc' : ∀ c, c' = some c → S.prev = some c := by
+    intro c h
+    subst hcar
+    split at h
+    · simp at h
+    · exact hc c h
   cases hk : s.kind with
   | jmp =>
     simp only
@@ -1008,28 +1048,27 @@ theorem sound_format (s : Sc) (carried : Option Rat) (S : St) (hok : ScOk s) (hp
   | rep =>
     simp only
     have hsome := hok.2 (by rw [hk]; simp)
-    cases hf : formatRepeat s carried with
+    cases hf : formatRepeat s c' with
     | none => exact sound_explicit s S hp hsome
-    | some f => exact sound_repeat s carried S f hp hc hf
+    | some f => exact sound_repeat s c' S f hp hc' hf
   | mul =>
     simp only
     have hsome := hok.2 (by rw [hk]; simp)
-    cases hf : formatMultiply s carried with
+    cases hf : formatMultiply s c' with
     | none => exact sound_explicit s S hp hsome
-    | some f => exact sound_multiply s carried S f hp hc hf
+    | some f => exact sound_multiply s c' S f hp hc' hf
   | lin =>
     simp only
     have hsome := hok.2 (by rw [hk]; simp)
-    cases hf : formatInterpolate s carried with
+    cases hf : formatInterpolate s c' with
     | none => exact sound_explicit s S hp hsome
-    | some f => exact sound_interpolate s carried S f hp hc hf
+    | some f => exact sound_interpolate s c' S f hp hc' hf
   | log =>
     simp only
     have hsome := hok.2 (by rw [hk]; simp)
-    cases hf : formatInterpolate s carried with
+    cases hf : formatInterpolate s c' with
     | none => exact sound_explicit s S hp hsome
-    | some f => exact sound_interpolate s carried S f hp hc hf
-
+    | some f => exact sound_interpolate s c' S f hp hc' hf
 
 /-! ### the loop of `ListNode.format` -/
 
@@ -1102,13 +1141,19 @@ theorem allOk_pass (scs : List (Int × Sc)) (vals : List Leaf) :
     simp at hr)
   exact allOk_expandShortcuts _ _ hb.2 (by intro it hit; simp at hit)
 
+theorem mem_popRev : ∀ (out : List Item) (it : Item), it ∈ popRev out → it ∈ out
+  | [], _, h => by simpa [popRev] using h
+  | Item.leaf l :: rest, _, h => by simpa [popRev] using h
+  | Item.sc sid s :: rest, it, h => by
+    simp only [popRev] at h
+    split at h
+    · exact List.mem_cons_of_mem _ (mem_popRev rest it h)
+    · exact h
+
 theorem mem_pop (items : List Item) (it : Item) (h : it ∈ popTrailingJump items) : it ∈ items := by
   unfold popTrailingJump at h
-  split at h
-  · split at h
-    · rw [List.dropLast_eq_take] at h; exact List.mem_of_mem_take h
-    · exact h
-  · exact h
+  have := mem_popRev items.reverse it (List.mem_reverse.mp h)
+  exact List.mem_reverse.mp this
 
 theorem allOk_update (scs : List (Int × Sc)) (vals : List Leaf) :
     ∀ it ∈ updateWithNewValues scs vals, ItemOk it := by
@@ -1118,18 +1163,23 @@ theorem allOk_update (scs : List (Int × Sc)) (vals : List Leaf) :
   · simp at hit
   · exact allOk_pass scs vals it (List.mem_reverse.mp (mem_pop _ it hit))
 
-theorem popped_none (items : List Item) (h : ∀ it ∈ items, ItemOk it) : ∀ l ∈ poppedLeaves items, l.val = none := by
-  intro l hl
-  unfold poppedLeaves at hl
-  split at hl
-  · rename_i sid s hlast
+theorem poppedRev_none : ∀ (out : List Item), (∀ it ∈ out, ItemOk it) → ∀ l ∈ poppedRev out, l.val = none
+  | [], _, l, hl => by simp [poppedRev] at hl
+  | Item.leaf _ :: rest, _, l, hl => by simp [poppedRev] at hl
+  | Item.sc sid s :: rest, h, l, hl => by
+    simp only [poppedRev] at hl
     split at hl
     · rename_i hcond
       simp only [Bool.and_eq_true, beq_iff_eq] at hcond
-      have hmem : Item.sc sid s ∈ items := List.mem_of_getLast? hlast
-      exact (h _ hmem).1 hcond.1 l hl
+      simp only [List.mem_append] at hl
+      rcases hl with hl | hl
+      · exact poppedRev_none rest (fun it hit => h it (List.mem_cons_of_mem _ hit)) l hl
+      · exact (h (Item.sc sid s) List.mem_cons_self).1 hcond.1 l hl
     · simp at hl
-  · simp at hl
+
+theorem popped_none (items : List Item) (h : ∀ it ∈ items, ItemOk it) : ∀ l ∈ poppedLeaves items, l.val = none := by
+  unfold poppedLeaves
+  exact poppedRev_none items.reverse (fun it hit => h it (List.mem_reverse.mp hit))
 
 /-- "the written list reads as the values": the words `ListNode.format` writes after
     `update_with_new_values scs vals` are MCNP entries, MCNP's reader accepts them, and what it reads agrees with
@@ -1182,7 +1232,7 @@ theorem C08_format_sound (s : Sc) (carried : Option Rat) (S : St) (hok : ScOk s)
 
 /-- a repeat run of two 2s (used for non-vacuity) -/
 def exampleRun : Sc :=
-  { orphanJump with kind := Kind.rep, nodes := [⟨0, some 2, 0, "", "", false, false⟩, ⟨1, some 2, 0, "", "", false, false⟩] }
+  { orphanJump with kind := Kind.rep, nodes := [⟨0, some 2, 0, "", "", false, false, true⟩, ⟨1, some 2, 0, "", "", false, false, true⟩] }
 
 /-- non-vacuity of `C08_format_sound`: its hypotheses hold for a repeat run of two 2s continuing a carried 2,
     read from the Spec state after the word `2` -/
@@ -1598,33 +1648,199 @@ theorem C08_keep_own_idempotent (own : List Leaf) : keepOwnNodes own own = own :
     simp only [keepZip, h o List.mem_cons_self, Bool.not_true, Bool.false_and, Bool.false_eq_true, if_false,
       ih (fun x hx => h x (List.mem_cons_of_mem _ hx))]
 
-/-! ## Rebuilding twice -/
+/-! ## An unchanged entry stays what it was written as -/
 
-/-- the shortcuts of a rebuilt list (`ListNode._shortcuts` after `update_with_new_values`) -/
-def shortcutsOf (items : List Item) : List (Int × Sc) :=
-  items.filterMap (fun it => match it with | .sc sid s => some (sid, s) | .leaf _ => none)
+/-- every node a shortcut holds is one it stood for when it was bound (or, for a left-off jump, the node it was
+    made for), or a fresh node (new to the list, or its value changed since the last rebuild) -/
+def RunOk (s : Sc) : Prop := ∀ n ∈ s.nodes, s.runIds.contains n.id = true ∨ n.fresh = true
 
-/-- the shape of a node list: which node ids are plain, which run each shortcut covers -/
-def shape (items : List Item) : List (List Nat) :=
-  items.map (fun it => match it with | .leaf l => [l.id] | .sc _ s => 0 :: s.nodes.map (·.id + 1))
+def ItemRun : Item → Prop
+  | .leaf _ => True
+  | .sc _ s => RunOk s
 
-def mkL (i : Nat) (v : Rat) : Leaf := ⟨i, some v, 0, "", "", false, false⟩
+def AllRun (out : List Item) : Prop := ∀ it ∈ out, ItemRun it
 
-/-- `9 9 1 1.0000000009 1.0000000018 r 5`: a chain whose neighbours are within rel_tol but whose ends are not -/
-def driftVals : List Leaf :=
-  [mkL 0 9, mkL 1 9, mkL 2 1, mkL 3 (1 + 9 / 10000000000), mkL 4 (1 + 18 / 10000000000),
-   mkL 5 (1 + 18 / 10000000000), mkL 6 5]
+theorem canConsume_runIds (s : Sc) (n : Leaf) (f l : Bool) : (canConsumeNode s n f l).2.runIds = s.runIds := by
+  unfold canConsumeNode
+  repeat' split
+  all_goals rfl
 
-def driftRep : Sc := { orphanJump with kind := Kind.rep, nodes := [mkL 4 0, mkL 5 0], origLen := 2 }
+theorem consume_runIds (s : Sc) (n : Leaf) (f l : Bool) : (consumeEdgeNode s n f l).2.runIds = s.runIds := by
+  unfold consumeEdgeNode
+  have h := canConsume_runIds s n f l
+  cases hc : canConsumeNode s n f l with
+  | mk ok s' => rw [hc] at h; cases ok <;> simp_all
 
-/-- **Rebuilding a list a second time from the same values is NOT the identity in general** (recorded finding
-    C08-F4): which values a repeat takes is decided by closeness to the first node of the run, closeness is not
-    transitive, and the first node of the run differs between the first rebuild (bound at `1.0000000018`, grown
-    backwards to `1.0000000009`) and the second (bound at `1.0000000009`, grown backwards to `1`).  Both node lists
-    are written as texts that read as the values (`C08_recompress`); only values within (rel_tol, 2·rel_tol] of each
-    other can regroup. -/
-theorem C08_rebuild_idempotent_refuted :
-    shape (updateWithNewValues (shortcutsOf (updateWithNewValues [(0, driftRep)] driftVals)) driftVals)
-      ≠ shape (updateWithNewValues [(0, driftRep)] driftVals) := by decide +kernel
+/-- taking a node it may take keeps `RunOk` -/
+theorem consume_run (s : Sc) (n : Leaf) (f l : Bool) (h : RunOk s)
+    (hn : s.runIds.contains n.id = true ∨ n.fresh = true) : RunOk (consumeEdgeNode s n f l).2 := by
+  intro m hm
+  rw [consume_runIds]
+  rcases consume_nodes_mem s n f l m hm with h1 | ⟨h1, _⟩
+  · exact h m h1
+  · rw [h1]; exact hn
+
+theorem gconsume_run (s : Sc) (n : Leaf) (f l : Bool) (h : RunOk s) : RunOk (guardedConsume s n f l).2 := by
+  unfold guardedConsume
+  split
+  · rename_i hm
+    refine consume_run s n f l h ?_
+    simpa [mayTake] using hm
+  · exact h
+
+theorem allRun_cons {it : Item} {out : List Item} (h1 : ItemRun it) (h2 : AllRun out) : AllRun (it :: out) := by
+  intro x hx
+  simp only [List.mem_cons] at hx
+  rcases hx with rfl | hx
+  · exact h1
+  · exact h2 x hx
+
+theorem allRun_orphan (out : List Item) (v : Leaf) (h : AllRun out) : AllRun (checkForOrphanJump out v).1 := by
+  unfold checkForOrphanJump
+  split
+  · cases hc : consumeEdgeNode { orphanJump with runIds := [v.id] } v true false with
+    | mk ok s =>
+      have := consume_run { orphanJump with runIds := [v.id] } v true false
+        (by intro n hn; simp [orphanJump] at hn) (Or.inl (by simp))
+      rw [hc] at this
+      cases ok
+      · exact allRun_cons trivial h
+      · exact allRun_cons this h
+  · exact allRun_cons trivial h
+
+theorem allRun_reverseExp (budget : Nat) : ∀ (s : Sc) (out : List Item), RunOk s → AllRun out →
+    RunOk (tryReverseExpansion s budget out).1 ∧ AllRun (tryReverseExpansion s budget out).2 := by
+  induction budget with
+  | zero => intro s out hs ho; simpa [tryReverseExpansion] using ⟨hs, ho⟩
+  | succ b ih =>
+    intro s out hs ho
+    unfold tryReverseExpansion
+    split
+    · rename_i l rest
+      have hso := gconsume_run s l false false hs
+      cases hc : guardedConsume s l false false with
+      | mk ok s' =>
+        rw [hc] at hso
+        cases ok
+        · exact ⟨hso, ho⟩
+        · simp only [if_true]
+          exact ih s' rest hso (fun x hx => ho x (List.mem_cons_of_mem _ hx))
+    · exact ⟨hs, ho⟩
+
+theorem allRun_stepPlain (st : PassSt) (v : Leaf) (h : AllRun st.out) : AllRun (stepPlain st v).out := by
+  unfold stepPlain
+  split
+  · rename_i sid s rest hcur hout
+    have hs : RunOk s := h (Item.sc sid s) (by rw [hout]; exact List.mem_cons_self)
+    have hrest : AllRun rest := fun x hx => h x (by rw [hout]; exact List.mem_cons_of_mem _ hx)
+    have hso := gconsume_run s v true (st.i == st.lastEnd + 1 && st.lastEnd != 0) hs
+    cases hc : guardedConsume s v true (st.i == st.lastEnd + 1 && st.lastEnd != 0) with
+    | mk ok s1 =>
+      rw [hc] at hso
+      simp only [hc]
+      cases ok
+      · simp only [Bool.false_eq_true, if_false]
+        exact allRun_orphan _ v (allRun_cons hso hrest)
+      · simp only [if_true]
+        exact allRun_cons hso hrest
+  · exact allRun_orphan st.out v h
+
+/-- a slot is well bound: the shortcut bound to it is empty and stood for the node of the slot -/
+def SlotOk (q : Leaf × Option (Int × Sc)) : Prop :=
+  ∀ r, q.2 = some r → r.2.nodes = [] ∧ r.2.runIds.contains q.1.id = true
+
+theorem allRun_stepPass (st : PassSt) (v : Leaf) (b : Option (Int × Sc)) (hb : SlotOk (v, b))
+    (h : AllRun st.out) : AllRun (stepPass st v b).out := by
+  unfold stepPass
+  split
+  · rename_i sid s
+    obtain ⟨hn, hr⟩ := hb (sid, s) rfl
+    simp only at hn hr
+    have hs : RunOk s := by intro n hm; rw [hn] at hm; simp at hm
+    simp only
+    have hso := consume_run s v true (st.i == (if st.cur = true then st.i - 1 else st.lastEnd) + 1 && (if st.cur = true then st.i - 1 else st.lastEnd) != 0) hs (Or.inl hr)
+    cases hc : consumeEdgeNode s v true (st.i == (if st.cur = true then st.i - 1 else st.lastEnd) + 1 && (if st.cur = true then st.i - 1 else st.lastEnd) != 0) with
+    | mk ok s1 =>
+      rw [hc] at hso
+      cases ok
+      · simp only [Bool.false_eq_true, if_false]
+        exact allRun_stepPlain st v h
+      · simp only [if_true]
+        have hrx := allRun_reverseExp (if st.i > 1 then st.i - 1 - (if st.cur = true then st.i - 1 else st.lastEnd) else 0) s1 st.out hso h
+        exact allRun_cons hrx.1 hrx.2
+  · exact allRun_stepPlain st v h
+
+theorem allRun_expandShortcuts : ∀ (slots : List (Leaf × Option (Int × Sc))) (st : PassSt),
+    (∀ q ∈ slots, SlotOk q) → AllRun st.out → AllRun (expandShortcuts slots st).out
+  | [], st, _, h => by simpa [expandShortcuts] using h
+  | (v, b) :: rest, st, hb, h => by
+    simp only [expandShortcuts]
+    exact allRun_expandShortcuts rest _ (fun q hq => hb q (List.mem_cons_of_mem _ hq))
+      (allRun_stepPass st v b (hb (v, b) List.mem_cons_self) h)
+
+theorem bindOne_slotOk (vals : List Leaf) (slots : List (Leaf × Option (Int × Sc))) (p : Int × Sc)
+    (h : ∀ q ∈ slots, SlotOk q) : ∀ q ∈ bindOne vals slots p, SlotOk q := by
+  unfold bindOne
+  split
+  · exact h
+  · rename_i n hfind
+    intro q hq
+    simp only [List.mem_map] at hq
+    obtain ⟨q0, hq0, rfl⟩ := hq
+    by_cases hid : (q0.1.id == n.id) = true
+    · simp only [hid, if_true]
+      intro r hr
+      simp only [Option.some.injEq] at hr
+      subst hr
+      refine ⟨rfl, ?_⟩
+      simp only [List.contains_iff_mem, List.mem_map]
+      exact ⟨n, List.mem_of_find?_eq_some hfind, (beq_iff_eq.mp hid).symm⟩
+    · simp only [hid, Bool.false_eq_true, if_false]
+      exact h q0 hq0
+
+theorem bind_slotOk (vals : List Leaf) : ∀ (scs : List (Int × Sc)) (slots : List (Leaf × Option (Int × Sc))),
+    (∀ q ∈ slots, SlotOk q) → ∀ q ∈ scs.foldl (bindOne vals) slots, SlotOk q
+  | [], _, h => h
+  | p :: rest, slots, h => by
+    simp only [List.foldl_cons]
+    exact bind_slotOk vals rest _ (bindOne_slotOk vals slots p h)
+
+/-- **C08_unedited_no_regroup.** After `update_with_new_values`, every node a shortcut holds is one it stood for
+    before (or the node a left-off jump was made for), or a fresh node.  In particular, when no value is fresh — the
+    list is rebuilt from its own, unchanged values: an unedited write, or a second write — no shortcut takes in an
+    entry it did not stand for: `1 2r 1` stays `1 2r 1`, a multiply keeps its own base, and the grouping of a second
+    rebuild can only be the grouping of the first (this retires findings C08-F3 and C08-F4). -/
+theorem C08_unedited_no_regroup (scs : List (Int × Sc)) (vals : List Leaf) :
+    ∀ it ∈ updateWithNewValues scs vals, ItemRun it := by
+  intro it hit
+  unfold updateWithNewValues at hit
+  split at hit
+  · simp at hit
+  · have hslots : ∀ q ∈ bindShortcuts scs vals, SlotOk q :=
+      bind_slotOk vals scs _ (by
+        intro q hq r hr
+        simp only [List.mem_map] at hq
+        obtain ⟨v, _, rfl⟩ := hq
+        simp at hr)
+    have hall := allRun_expandShortcuts (bindShortcuts scs vals) ⟨[], false, 0, 0⟩ hslots
+      (by intro x hx; simp at hx)
+    exact hall it (List.mem_reverse.mp (mem_pop _ it hit))
+
+/-- the unedited case spelled out: no fresh value, so every shortcut's run lies within the run it was bound with -/
+theorem C08_unedited_runs_within (scs : List (Int × Sc)) (vals : List Leaf)
+    (hun : ∀ v ∈ vals, v.fresh = false) :
+    ∀ sid s, Item.sc sid s ∈ updateWithNewValues scs vals → ∀ n ∈ s.nodes, s.runIds.contains n.id = true := by
+  intro sid s hmem n hn
+  have hrun := C08_unedited_no_regroup scs vals (Item.sc sid s) hmem n hn
+  rcases hrun with h | h
+  · exact h
+  · have hv : n ∈ vals := by
+      have hci := C08_consume_inv scs vals
+      rw [← hci]
+      apply List.mem_append_left
+      simp only [flatten, List.mem_flatten, List.mem_map]
+      exact ⟨s.nodes, ⟨Item.sc sid s, hmem, rfl⟩, hn⟩
+    rw [hun n hv] at h
+    simp at h
 
 end MontePyVerif.C08
